@@ -124,7 +124,7 @@ impl Ctx {
     pub fn spec_file(&mut self, spec: &Spec) -> PathBuf {
         self.counter += 1;
         let p = self.tmp.join(format!("spec{}.json", self.counter));
-        std::fs::write(&p, serde_json::to_vec(&spec_json(spec)).unwrap()).unwrap();
+        std::fs::write(&p, spec_json(spec).to_text()).unwrap();
         p
     }
     /// the contents a fresh generation produces, in write order (= the plan the FS theorems quantify over)
